@@ -46,9 +46,14 @@ class C08(ScanCheck):
         for wi, (v, s) in enumerate(wallets):
             Spt = sc.gmul(s)
             S = sc.cp(Spt).hex()
-            for _ in range(2 if q else 5):
+            tors = ed.torsion_points()
+            for kk in range(3 if q else 7):
                 r = sc.rscalar(rng)
                 Kpt = sc.gmul(r)
+                if kk == 2 or kk >= 5:
+                    # a transaction key with a small-order component (r*G + T), or a pure small-order key: the shared secret
+                    # 8*v*K is the one of r*G (resp. the neutral element) on every route
+                    Kpt = ed.add(Kpt, tors[1 + (wi + kk) % 7]) if kk != 6 else tors[(wi % 7) + 1]
                 K = sc.cp(Kpt).hex()
                 Dv = sc.cp(sc.fmul(8, sc.fmul(v, Kpt)))
                 first = True
